@@ -7,14 +7,19 @@ import tempfile
 
 from .. import coqenc as q
 from .. import datasets as D
+from .. import datasets_c04 as D4
 
 ID = 'C04'
 RULE = ('generated dataset directories over the option product (KS vs ALF names with/without label, (n,) vs (n,1) '
-        'vectors, each optional file present/absent, id/time/channel-map dtypes, raw file wider than the channel map, '
-        'NaN/inf sprinkled into fully loaded arrays, all-NaN templates, extra spike_*.npy attributes of right and wrong '
-        'length, non-monotonic times): pairwise-style coverage of the axes first, then seeded random. Non-trivial = the '
-        'directory loads (or is rejected for non-monotonic times) and at least one optional file is absent or one default '
-        'is exercised; distinct = distinct abstract dataset.')
+        'vectors, each optional file present/absent incl. features / template features / spike_times_reordered, dense vs '
+        'sparse templates, id/time/channel-map dtypes, raw file wider than the channel map, NaN/inf sprinkled into fully '
+        'loaded arrays, all-NaN templates, extra spike_*.npy attributes of right and wrong length, non-monotonic times, '
+        'four construction routes: kwargs / load_model(params.py) / two alternative params.py spellings): pairwise-style '
+        'coverage of the axes first, then seeded random; every such directory satisfies the decidable well-formedness '
+        'predicate wf_b of C04/Spec.v (checked by the comparator, code 3 otherwise).  A second stream of malformed '
+        'directories (one well-formedness condition broken) is judged on the exception class of the error exit only.  '
+        'Non-trivial = the directory loads, is rejected for non-monotonic times, or leaves by the error exit the model '
+        'names; distinct = distinct abstract dataset.')
 EXHAUSTIVE = {'quick': False, 'thorough': False}
 CLAUSES = {
     1: 'observed attributes differ from the Coq model PV.C04.Model.load',
@@ -25,18 +30,23 @@ CLAUSES = {
     27: 'C04_attr: extra per-spike attribute arrays', 28: 'C04_frame: pre-existing files byte-identical, nothing created '
     'except the spike-cluster copy and the inverse whitening matrix when missing',
     29: 'C04_rejects: non-monotonic spike times must be rejected', 30: 'C04_traces: raw traces with columns permuted by the channel map',
+    31: 'C04_routes_agree: constructor arguments (dir_path, dat_path, dtype, offset, sample_rate, n_channels_dat) from '
+        'kwargs / load_model(params.py) / alternative params.py spellings',
 }
 TRUSTED = ['np.load/np.save/np.memmap, pathlib.glob, shutil.copy, np.linalg.inv (judged exactly by wm*wmi = I)',
            'Coq primitive floats (PrimFloat) reproduce the single binary64 division samples/rate and the product times*rate in the comparator']
-ASSUMES = ['well-formed = at most one file per glob pattern, consistent shapes, no axis of length 1 other than the (n,1) '
-           'vector layout (phylib squeezes every array), pairwise distinct positions, finite spike times',
+ASSUMES = ['well-formed = wf_b of C04/Spec.v: at most one file per glob pattern, consistent shapes (so no axis of length 1 '
+           'other than the (n,1) vector layout: phylib squeezes every array), integer ids, channel map within the raw '
+           'file, pairwise distinct positions, a template file, no two spike-cluster files, finite spike times',
            'whitening matrices whose inverse is exact in binary64']
 TIMEOUT = {'quick': 20, 'thorough': 30}
 
 # how the model is constructed (implementation-side axis; the abstract result does not depend on it):
 # keyword arguments, load_model(params.py) with dat_path a list of file names relative to the directory,
 # the same with upper-case parameter names / dat_path a bare string when there is exactly one raw file / absolute paths
-ROUTES = ['kwargs', 'params', 'params_alt']
+# a params.py that first assigns upper-case names to wrong values and then the lower-case names (read_python lower-cases the
+# keys in insertion order: the later assignment wins), gives dir_path explicitly, an integer sample rate, no offset when 0
+ROUTES = ['kwargs', 'params', 'params_alt', 'params_dup']
 ID_DTYPES = ['uint16', 'uint32', 'int32', 'int64']
 TIME_DTYPES = ['uint64', 'int64', 'int32']
 CM_DTYPES = ['uint32', 'int32', 'int64']
@@ -50,11 +60,12 @@ def _mk(rng, **force):
         'cm_dtype': rng.choice(CM_DTYPES), 'alf_samples': rng.random() < 0.5, 'write_wmi': rng.random() < 0.3,
         'tmpl_dtype': rng.choice(['float32', 'float64']), 'nan': rng.random() < 0.35, 'nan_template': rng.random() < 0.15,
         'attrs': rng.random() < 0.4, 'nonmono': rng.random() < 0.08, 'sparse': rng.random() < 0.3,
-        'route': rng.choice(ROUTES),
+        'route': rng.choice(ROUTES), 'features': rng.random() < 0.25, 'tfeatures': rng.random() < 0.2,
+        'reorder': rng.random() < 0.25,
     }
     o.update(force)
     sem = D.gen_semantic(rng, n_spikes=rng.randint(2, 9), n_templates=rng.randint(2, 4), n_channels=rng.randint(2, 5),
-                         n_samples_wf=rng.randint(2, 4), features=False, template_features=False,
+                         n_samples_wf=rng.randint(2, 4), features=bool(o['features']), template_features=bool(o['tfeatures']),
                          rate=rng.choice([128.0, 1024.0, 100.0, 30000.0, 25000.0]),
                          **{k: force[k] for k in ('curated', 'amplitudes', 'shanks', 'probes', 'whitening', 'similar', 'raw')
                             if k in force})
@@ -68,6 +79,10 @@ def _mk(rng, **force):
                                                   'cm_dtype', 'alf_samples', 'tmpl_dtype')})
     files = ds['files']
     ns = sem['n_spikes']
+    if ds.get('raw') and sum(ds['raw']['sizes']) > 14 and o.get('short_raw', rng.random() < 0.85):
+        # a recording shorter than the last spike (the loader only logs a warning): keeps the raw literal small
+        k = len(ds['raw']['sizes'])
+        ds['raw']['sizes'] = [rng.randint(1, max(1, 12 // k)) for _ in range(k)]
     if o['names'] == 'alf' and not o['alf_samples'] and o.get('frac', rng.random() < 0.6):
         # stored seconds that fall between samples: round(times * rate) must round half to even
         tn = [n for n in files if n.startswith('spikes.times')][0]
@@ -104,6 +119,8 @@ def _mk(rng, **force):
         cn = 'template_ind.npy' if o['names'] == 'ks' else 'templates.waveformsChannels%s.npy' % lab_
         files[cn] = {'dtype': rng.choice(['int32', 'int64', 'uint32']) if all(c >= 0 for r in cols for c in r) else rng.choice(['int32', 'int64']),
                      'shape': [nt_, ncl], 'data': [c for r in cols for c in r]}
+    if o['reorder']:
+        D4.add_reorder(ds, rng, ns, o['vec2d'])
     if o['attrs']:
         files['spike_foo.npy'] = {'dtype': 'float64', 'shape': [ns, 1] if o['vec2d'] else [ns],
                                   'data': [float(rng.randint(-5, 5)) for _ in range(ns)]}
@@ -142,6 +159,14 @@ AXES = [
     ('shanks', [False, True]), ('probes', [False, True]), ('similar', [False, True]), ('raw', [False, True]),
     ('curated', [False, True]), ('alf_samples', [False, True]), ('nan', [False, True]), ('attrs', [False, True]),
 ]
+# files the loader reads but that feed no attribute of the statement: paired with the layout axes only in the quick tier
+AXES_LIGHT = [('features', [False, True]), ('tfeatures', [False, True]), ('reorder', [False, True])]
+LIGHT_AGAINST = ('names', 'vec2d', 'curated', 'sparse', 'route')
+# the optional file a breaker of the malformed stream needs
+BREAK_NEEDS = {'amps_longer': dict(amplitudes=True), 'amps_2d': dict(amplitudes=True), 'clusters_longer': dict(write_clusters=True),
+               'shanks_longer': dict(shanks=True), 'probes_longer': dict(probes=True), 'wm_bigger': dict(whitening='tri'),
+               'wmi_bigger': dict(whitening='perm2', write_wmi=True), 'similar_bigger': dict(similar=True),
+               'reorder_longer': dict(reorder=True)}
 
 
 def generate(tier, rng):
@@ -158,19 +183,40 @@ def generate(tier, rng):
         dict(names='alf', both=True), dict(names='ks', both=True),
         dict(names='ks', raw=True, vec2d=True), dict(names='ks', whitening='tri', write_wmi=False),
         dict(names='ks', whitening='perm2', write_wmi=True),
+        dict(names='ks', reorder=True, vec2d=True), dict(names='alf', reorder=True, attrs=True),
+        dict(names='ks', features=True, tfeatures=True, curated=True, sparse=False),
+        dict(route='params_dup', raw=True), dict(route='params_alt', raw=True), dict(route='params', raw=False),
     ]:
         for _ in range(3):
             cases.append({'kind': 'load', 'inp': _mk(rng, **force)})
-    n_pair, n_rand = {'quick': (6, 150), 'thorough': (40, 3000), 'search': (10, 1500)}[tier]
+    n_pair, n_rand = {'quick': (6, 20), 'thorough': (40, 1500), 'search': (10, 1500)}[tier]
     # every pair of axis values at least n_pair times (random completion of the other axes)
-    for i, (a, va) in enumerate(AXES):
-        for b, vb in AXES[i + 1:]:
-            for x in va:
-                for y in vb:
-                    for _ in range(1 if tier == 'quick' else n_pair // 8 or 1):
-                        cases.append({'kind': 'load', 'inp': _mk(rng, **{a: x, b: y})})
+    axes = AXES if tier == 'quick' else AXES + AXES_LIGHT
+    if tier == 'quick':      # the fourth route is exercised by the corpus, the light axes and the random stream
+        axes = [(a, [v for v in va if v != 'params_dup']) for a, va in axes]
+    pairs = [(p1, p2) for i, p1 in enumerate(axes) for p2 in axes[i + 1:]]
+    if tier == 'quick':
+        pairs += [(p1, p2) for p1 in AXES_LIGHT for p2 in AXES if p2[0] in LIGHT_AGAINST]
+        pairs += [(p1, p2) for i, p1 in enumerate(AXES_LIGHT) for p2 in AXES_LIGHT[i + 1:]]
+    for (a, va), (b, vb) in pairs:
+        for x in va:
+            for y in vb:
+                for _ in range(1 if tier == 'quick' else n_pair // 8 or 1):
+                    cases.append({'kind': 'load', 'inp': _mk(rng, **{a: x, b: y})})
     for _ in range(n_rand):
         cases.append({'kind': 'load', 'inp': _mk(rng)})
+    # malformed stream: one well-formedness condition broken; the model names the error exit
+    n_mal = {'quick': 2, 'thorough': 12, 'search': 6}[tier]
+    for name in sorted(D4.BREAKERS):
+        got = 0
+        for _ in range(n_mal * 6):
+            if got >= n_mal:
+                break
+            base = _mk(rng, nonmono=False, nan_template=False, route='kwargs', **BREAK_NEEDS.get(name, {}))
+            bad = D4.break_dataset(base, name, rng)
+            if bad is not None:
+                cases.append({'kind': 'malformed', 'inp': bad})
+                got += 1
     return cases
 
 
@@ -180,24 +226,28 @@ def _ta(x):
     return None if x is None else D.tok_array(x)
 
 
+def _write_params(ds, route, d):
+    """params.py of the route (the single source of what the Coq model of read_python is given)."""
+    with open(os.path.join(d, 'params.py'), 'w') as f:
+        for k, v in D4.route_assigns(ds, route):
+            f.write('%s = %s\n' % (k, D4.py_literal(v, d)))
+
+
+def _abstract_path(p, d):
+    p = str(p)
+    return D4.DIR + p[len(d):] if (p == d or p.startswith(d + os.sep)) else p
+
+
 def run_case(case):
     import numpy as np
     from phylib.io.model import TemplateModel
     ds = case['inp']
-    d = tempfile.mkdtemp(prefix='c04_', dir=os.environ.get('VT_WORK') or None)
+    d = os.path.realpath(tempfile.mkdtemp(prefix='c04_', dir=os.environ.get('VT_WORK') or None))
     try:
         kw = D.materialise(ds, d)
         route = ds.get('opts', {}).get('route', 'kwargs')
-        if route == 'params_alt':
-            from pathlib import Path
-            dp = [str(x) for x in kw.get('dat_path', [])]
-            with open(os.path.join(d, 'params.py'), 'w') as f:
-                f.write('DAT_PATH = %r\n' % (os.path.basename(dp[0]) if len(dp) == 1 else dp))
-                f.write('N_CHANNELS_DAT = %r\n' % kw['n_channels_dat'])
-                f.write('Dtype = %r\n' % str(kw['dtype']))
-                f.write('offset = %r\n' % kw['offset'])
-                f.write('SAMPLE_RATE = %r\n' % float(kw['sample_rate']))
-                f.write('hp_filtered = True\n')
+        if route != 'kwargs':
+            _write_params(ds, route, d)
         before = D.listing(d)
         try:
             if route == 'kwargs':
@@ -217,6 +267,10 @@ def run_case(case):
             'tcols': _ta(m.sparse_templates.cols), 'wm': _ta(m.wm), 'wmi': _ta(m.wmi), 'similar': _ta(m.similar_templates),
             'attrs': sorted((k, _ta(v)) for k, v in m.spike_attributes.items()),
             'traces': _ta(np.array(m.traces[:])) if m.traces is not None else None,
+            'reordered': _ta(m.spike_times_reordered),
+            'ctor': {'dir': _abstract_path(m.dir_path, d), 'dats': [_abstract_path(x, d) for x in m.dat_path],
+                     'dtype': np.dtype(m.dtype).name, 'offset': int(m.offset), 'rate': D.tok(float(m.sample_rate)),
+                     'ncd': None if m.n_channels_dat is None else int(m.n_channels_dat)},
         }
         m.close()
         del m
@@ -235,10 +289,32 @@ def _files(l):
     return q.lst(l, lambda kv: '(%s, %s)' % (q.s(kv[0]), D.coq_arr(kv[1]) if kv[1] is not None else '(mkarr DBool [] [])'))
 
 
+def _pyval(v):
+    tag, x = v
+    if tag == 'str':
+        return '(PStr %s)' % q.s(x)
+    if tag == 'strs':
+        return '(PStrs %s)' % q.lst(x, q.s)
+    if tag == 'int':
+        return '(PInt %s)' % q.z(x)
+    if tag == 'float':
+        return '(PFloat %s)' % D.coq_tok(D.tok(float(x)))
+    if tag == 'bool':
+        return '(PBool %s)' % q.b(x)
+    raise ValueError(tag)
+
+
+NAME_ONLY = ('pc_feature', 'template_feature')
+EXN = {'OSError': 'XnIOError', 'IOError': 'XnIOError', 'FileNotFoundError': 'XnIOError', 'AssertionError': 'XnAssertion',
+       'ValueError': 'XnValueError'}
+
+
 def encode(case, obs):
     import numpy as np
     ds = case['inp']
-    files = sorted((name, D.spec_to_tokarr(spec)) for name, spec in ds['files'].items())
+    # feature files feed no attribute of the statement and match no pattern of the model: passed by name, content elided
+    files = sorted((name, D.spec_to_tokarr(spec) if not name.startswith(NAME_ONLY) else (spec['dtype'], [0], []))
+                   for name, spec in ds['files'].items())
     raw = ds.get('raw')
     if raw:
         rows, r0 = [], 0
@@ -250,30 +326,42 @@ def encode(case, obs):
     else:
         rawtxt = 'None'
     ncd = ds['params'].get('n_channels_dat')
-    cin = '(InLoad (mkinp %s %s %s %s))' % (_files(files), D.coq_tok(D.tok(float(ds['params']['sample_rate']))),
-                                            q.opt(ncd), rawtxt)
+    route = ds.get('opts', {}).get('route', 'kwargs')
+    assigns = q.lst(D4.route_assigns(ds, route), lambda kv: '(%s, %s)' % (q.s(kv[0]), _pyval(kv[1])))
+    inp = '(mkinp %s %s %s %s %s %s (%s %s))' % (
+        _files(files), D.coq_tok(D.tok(float(ds['params']['sample_rate']))), q.opt(ncd), rawtxt, q.s(D4.DIR),
+        q.lst(D4.raw_names(ds), q.s), 'RKw' if route == 'kwargs' else 'RPy', assigns)
+    cin = '(%s %s)' % ('InMalformed' if case.get('kind') == 'malformed' else 'InLoad', inp)
     if obs[0] == 'crash':
-        return cin, 'ObsCrash'
+        return cin, '(ObsCrashX %s)' % EXN.get(obs[1], 'XnOther')
     if obs[0] == 'rejected':
         return cin, 'ObsRejected'
     o = obs[1]
     A, OA = D.coq_arr, D.coq_opt_arr
-    cobs = ('(ObsLoaded (mkobs %s %s %s %s %s %s %s %s %s %s %s %s %s %s %s %s %s %s))' % (
+    k = o['ctor']
+    ctor = '(mkctor %s %s %s %s %s %s)' % (q.s(k['dir']), q.lst(k['dats'], q.s), q.s(k['dtype']), q.z(k['offset']),
+                                           D.coq_tok(tuple(k['rate']) if isinstance(k['rate'], list) else k['rate']),
+                                           q.opt(k['ncd']))
+    cobs = ('(ObsLoaded (mkobs %s %s %s %s %s %s %s %s %s %s %s %s %s %s %s %s %s %s %s %s))' % (
         A(o['samples']), A(o['times']), OA(o['amps']), A(o['stemplates']), A(o['sclusters']), A(o['cmap']), A(o['pos']),
         A(o['shanks']), A(o['probes']), A(o['tdata']), OA(o['tcols']), A(o['wm']), A(o['wmi']), A(o['similar']),
-        _files(o['attrs']), _files(o['new']), q.lst(o['changed'], q.s), OA(o['traces'])))
+        _files(o['attrs']), _files(o['new']), q.lst(o['changed'], q.s), OA(o['traces']), OA(o['reordered']), ctor))
     return cin, cobs
 
 
 def nontrivial(case, obs):
+    if case.get('kind') == 'malformed':
+        return obs[0] == 'crash'
     return obs[0] in ('loaded', 'rejected')
 
 
 def dist(case, obs):
     o = case['inp']['opts']
-    out = ['outcome=' + obs[0] + (':' + obs[1] if obs[0] == 'crash' else '')]
+    out = ['kind=' + case.get('kind', 'load'), 'outcome=' + obs[0] + (':' + obs[1] if obs[0] == 'crash' else '')]
+    if case.get('kind') == 'malformed':
+        return out + ['broken=%s' % o.get('broken')]
     for k in ('names', 'label', 'vec2d', 'write_clusters', 'id_dtype', 'time_dtype', 'cm_dtype', 'nan', 'nan_template',
-              'attrs', 'nonmono', 'write_wmi', 'alf_samples'):
+              'attrs', 'nonmono', 'write_wmi', 'alf_samples', 'sparse', 'route', 'features', 'tfeatures', 'reorder'):
         out.append('%s=%s' % (k, o[k]))
     f = case['inp']['files']
     out.append('raw=%s' % bool(case['inp'].get('raw')))
@@ -284,27 +372,46 @@ def dist(case, obs):
 
 def shrink(case):
     ds = case['inp']
+    kind = case.get('kind', 'load')
+    if kind == 'malformed':
+        return
     optional = ['amplitudes.npy', 'channel_shanks.npy', 'channel_probe.npy', 'similar_templates.npy', 'whitening_mat.npy',
-                'whitening_mat_inv.npy', 'spike_foo.npy', 'spike_wrong.npy', 'spike_mat.npy']
+                'whitening_mat_inv.npy', 'spike_foo.npy', 'spike_wrong.npy', 'spike_mat.npy', 'spike_times_reordered.npy',
+                'pc_features.npy', 'template_features.npy']
     for name in list(ds['files']):
         if name in optional or name.startswith(('spikes.amps', 'channels.shanks', 'channels.probes')):
             c = copy.deepcopy(ds)
             del c['files'][name]
             if name == 'whitening_mat.npy':
                 c['files'].pop('whitening_mat_inv.npy', None)
+            if name == 'pc_features.npy':
+                c['files'].pop('pc_feature_ind.npy', None)
+                c['files'].pop('pc_feature_spike_ids.npy', None)
+            if name == 'template_features.npy':
+                c['files'].pop('template_feature_ind.npy', None)
+                c['files'].pop('template_feature_spike_ids.npy', None)
             yield {'kind': 'load', 'inp': c}
     if ds.get('raw'):
         c = copy.deepcopy(ds)
         c['raw'] = None
         yield {'kind': 'load', 'inp': c}
+    if ds.get('opts', {}).get('route', 'kwargs') != 'kwargs':
+        c = copy.deepcopy(ds)
+        c['opts']['route'] = 'kwargs'
+        yield {'kind': 'load', 'inp': c}
 
 
 def repro(case):
-    return ("import sys, tempfile; sys.path[:0] = ['/verif/harness', '/repo']\n"
+    return ("import os, sys, tempfile; sys.path[:0] = ['/verif/harness', '/repo']\n"
             "from vt import npshim, datasets as D; npshim.setup_process()\n"
-            "from phylib.io.model import TemplateModel\n"
+            "from vt.props import c04\n"
+            "from phylib.io.model import TemplateModel, load_model\n"
             "ds = %r\n"
-            "d = tempfile.mkdtemp(); kw = D.materialise(ds, d); before = D.listing(d)\n"
-            "m = TemplateModel(**kw); print(m.spike_times, m.spike_clusters, m.channel_mapping)\n"
+            "d = os.path.realpath(tempfile.mkdtemp()); kw = D.materialise(ds, d)\n"
+            "route = ds.get('opts', {}).get('route', 'kwargs')\n"
+            "if route != 'kwargs': c04._write_params(ds, route, d)\n"
+            "before = D.listing(d)\n"
+            "m = TemplateModel(**kw) if route == 'kwargs' else load_model(os.path.join(d, 'params.py'))\n"
+            "print(m.spike_times, m.spike_clusters, m.channel_mapping, m.dat_path, m.dtype, m.offset, m.sample_rate)\n"
             "after = D.listing(d); print('changed', [k for k in before if after.get(k) != before[k]], 'new', sorted(set(after) - set(before)))\n"
             % (case['inp'],))
